@@ -299,9 +299,6 @@ def _transforms(ctx, ft, pr, config):
                     what = '|route| != |textbook sum| (shifted)'
                 if not okp:
                     ctx.pred_fail('transform', cc, f'{what}: max err {errp:.3g} (tol {tol:g})')
-                # configured precision decides the matrix DFT output precision; the input dtype the CZT's
-                want32 = (method == 'mdft' and c['precision'] == 32 and c['dtype'] not in ('complex128', 'float64', 'int64')) \
-                    or (method == 'czt' and c['dtype'] in ('float32', 'complex64'))
         finally:
             config.precision = 64
 
@@ -416,6 +413,19 @@ def _dispatch(ctx, ft, pr, config):
         ok, err = close(b, a, TOL64)
         if not ok:
             ctx.disagree('dispatch', c, f'czt - mdft = {err:.3g}', 'model: czt2 == dft2 sample for sample')
+        # the Wavefront methods are thin wrappers over the same functions
+        try:
+            space = 'pupil' if c['fn'].startswith('focus') else 'psf'
+            wf = pr.Wavefront(f, c['wvl'], c['dx'], space=space)
+            w = getattr(wf, c['fn'])(c['efl'], c['out_dx'], (M, N), shift=tuple(c['shift']), method='czt')
+            q = [1, 2, 1.5][int(r.integers(3))]
+            w2 = (wf.focus if space == 'pupil' else wf.unfocus)(c['efl'], Q=q)
+            ref2 = (pr.focus if space == 'pupil' else pr.unfocus)(f, q)
+        except Exception as ex:
+            ctx.pred_fail('dispatch', c, f'Wavefront.{c["fn"]} raised {type(ex).__name__}: {str(ex)[:160]}')
+            continue
+        if not close(w.data, b, TOL64)[0] or not close(w2.data, ref2, TOL64)[0]:
+            ctx.pred_fail('dispatch', c, f'Wavefront.{c["fn"]} / Wavefront.focus differ from the functions they wrap')
 
 
 # ------------------------------------------------------------------------------------------------
@@ -516,7 +526,6 @@ def _histories(ctx, ft, pr, config):
         if fail:
             ctx.pred_fail('history', {'ops': ops}, fail)
         # cache state machine: model (keys as the MODEL defines them) vs implementation (entry counts)
-        prec = 64
         for which, nf in (('mdft', 7), ('czt', 6)):
             toks, prec = [], 64
             for op in ops:
